@@ -173,7 +173,7 @@ pub fn run(seed: u64, tier: &str, out: &str) {
     }
     // (3) concurrent: every thread its own permutation, several rounds
     let threads = 16;
-    let rounds = if thorough { 40 } else { 4 };
+    let rounds = if thorough { 12 } else { 4 };
     let seeds: Vec<u64> = (0..threads).map(|_| r.next()).collect();
     std::thread::scope(|s| {
         for t in 0..threads {
